@@ -824,7 +824,7 @@ func rangeElem(v ssa.Value) (ssa.Value, bool) {
 	if !ok {
 		return nil, false
 	}
-	if b, ok := lc.Call.Value.(*ssa.Builtin); !ok || b.Name() != "len" || lc.Call.Args[0] != ia.X {
+	if b, ok := lc.Call.Value.(*ssa.Builtin); !ok || b.Name() != "len" || !sameValue(lc.Call.Args[0], ia.X) {
 		return nil, false
 	}
 	return ia.X, true
